@@ -24,7 +24,7 @@
   `Galaxy/Model/PluginC06.lean` are the model's functions, the `*_counter` theorems show what fails at the other
   values (`d7_reseed_counter` = fixed defect D7).
 -/
-import Galaxy.Lemmas.C06Dec
+import Galaxy.Lemmas.C06Sorted
 
 namespace Galaxy.Props.C06
 open Galaxy Galaxy.Plugin Galaxy.Plugin.C06
@@ -72,6 +72,11 @@ theorem fact_bind_shape :
 theorem fact_ipinfo_from_own_pool :
     Generated.C06.ipinfoFromOwnPool = true ∧ Generated.C06.ipinfoNodeSubnetsFromOwnPool = true ∧
       Generated.C06.ipinfoGatewayExpr = "fipPool.Gateway" := by decide
+
+/-- ByKeyAndIPRanges(key, nil) sorts the key's addresses ascending after the map loop (fix "filter and bind could pick
+    different ips of a pod which holds several without requesting ranges"): `ipInfos[0]` of getSubnet and `ipInfos[:1]`
+    of allocateIP are the same, lowest, address - the admissibility refinement `choiceIsMin` at this value. -/
+theorem fact_by_key_without_ranges_sorted : Generated.C06.byKeyNoRangesSorted = true := by decide
 
 /-- At the regenerated fact value, `NodeSubnetsByIPRanges` is the model's `nodeSubnetsByRanges`. -/
 theorem model_nodeSubnetsByRanges_has_source_shape (s : State) (rss : List Ranges) :
@@ -205,6 +210,87 @@ theorem holder_offered_only_routable (s : State) (ns name : String) (pod : Pod) 
   obtain ⟨sn, ha⟩ := filter_approved (scene_withFaults hs 0 0) nodes ch node hn
   intro ip hip
   exact (routable_iff (WF_parts hwf).1 ip node).mpr ⟨sn, ha.subnet, ha.prepared.routablePre hone ip hip⟩
+
+/-- With `ByKeyAndIPRanges(key, nil)` sorted (`fact_by_key_without_ranges_sorted`): a pod WITHOUT requested ranges whose
+    key holds addresses (any number) is bound with exactly the LOWEST of them, written with its own pool's ipinfo, and
+    that address is routable from every node Filter approved.  `choiceIsMin` is the refinement of the model's
+    admissibility test the fact justifies (the harness checks the observed choices against it). -/
+theorem bound_ip_is_lowest_held (s : State) (ns name : String) (pod : Pod) (nodes : List String) (ch ch' : Choice)
+    (node : String) (uid : Nat) (hs : Scene s ns name pod) (hwf : WF s pod = true) (huid : uid = 0 ∨ pod.uid = uid)
+    (hr : pod.ranges = []) (m : IP) (hm : minIP (ipsOfKey s (keyOf pod)) = some m)
+    (hmin : choiceIsMin Generated.C06.byKeyNoRangesSorted s pod ch = true)
+    (hmin' : choiceIsMin Generated.C06.byKeyNoRangesSorted (step facts s (.filter ns name nodes ch 0)).1 pod ch' = true)
+    (hn : node ∈ (step facts s (.filter ns name nodes ch 0)).2.nodes)
+    (hok : (step facts (step facts s (.filter ns name nodes ch 0)).1 (.bind ns name uid node ch' 0 0)).2.res = .ok) :
+    (step facts (step facts s (.filter ns name nodes ch 0)).1 (.bind ns name uid node ch' 0 0)).2.ips = [toHInfo s m] ∧
+      Routable s m node := by
+  rw [fact_by_key_without_ranges_sorted] at hmin hmin'
+  have hk : ipsOfKey s (keyOf pod) ≠ [] := fun e => by rw [e] at hm; cases hm
+  obtain ⟨sn0, ha⟩ := filter_approved (scene_withFaults hs 0 0) nodes ch node hn
+  obtain ⟨ip, sn, hpf, hsub, hhas, ⟨c, hc⟩⟩ := filter_reuse (scene_withFaults hs 0 0) nodes ch hr hk node hn
+  have hip : ip = m := by
+    have := choiceIsMin_first (s := withFaults s 0 0) hmin hr hk hpf
+    rw [show ipsOfKey (withFaults s 0 0) (keyOf pod) = ipsOfKey s (keyOf pod) from rfl, hm] at this
+    exact (Option.some.inj this).symm
+  subst hip
+  have hb : BindScene (withFaults (step facts s (.filter ns name nodes ch 0)).1 0 0) ns name pod uid :=
+    ⟨coherent_withFaults ha.coh 0 0, noFault_withFaults _, ha.lister, ha.truth, huid, hs.wants⟩
+  have hkeq : ipsOfKey (withFaults (step facts s (.filter ns name nodes ch 0)).1 0 0) (keyOf pod) =
+      ipsOfKey s (keyOf pod) := by
+    rw [show (step facts s (.filter ns name nodes ch 0)).1 = _ from hc]; rfl
+  have hkeq' : ipsOfKey (step facts s (.filter ns name nodes ch 0)).1 (keyOf pod) = ipsOfKey s (keyOf pod) := hkeq
+  obtain ⟨ip', hpf', hips⟩ := bind_reuse facts node hb ch' hr (by rw [hkeq]; exact hk) hok
+  have hip' : ip' = ip := by
+    rw [hkeq] at hpf'
+    have := choiceIsMin_first hmin' hr (by rw [hkeq']; exact hk) (by rw [hkeq']; exact hpf')
+    rw [hkeq', hm] at this
+    exact (Option.some.inj this).symm
+  subst hip'
+  have hp : (withFaults (step facts s (.filter ns name nodes ch 0)).1 0 0).pools = s.pools := ha.pools
+  refine ⟨?_, (routable_iff (WF_parts hwf).1 ip' node).mpr ⟨sn, hsub, hhas⟩⟩
+  show (Plugin.bind facts (withFaults (step facts s (.filter ns name nodes ch 0)).1 0 0) ns name uid node ch').2.ips = _
+  rw [hips, toHInfo_pools hp]
+
+/-- `bound_ip_routable` WITHOUT `AtMostOneWithoutRanges`, for the address that is actually written: with
+    `ByKeyAndIPRanges(key, nil)` sorted, every address of the binding annotation of a successful bind on a
+    filter-approved node is routable from that node, however many addresses the pod's key holds. -/
+theorem bound_ip_routable_sorted (s : State) (ns name : String) (pod : Pod) (nodes : List String) (ch ch' : Choice)
+    (node : String) (uid : Nat) (hs : Scene s ns name pod) (hwf : WF s pod = true) (huid : uid = 0 ∨ pod.uid = uid)
+    (hmin : choiceIsMin Generated.C06.byKeyNoRangesSorted s pod ch = true)
+    (hmin' : choiceIsMin Generated.C06.byKeyNoRangesSorted (step facts s (.filter ns name nodes ch 0)).1 pod ch' = true)
+    (hn : node ∈ (step facts s (.filter ns name nodes ch 0)).2.nodes)
+    (hok : (step facts (step facts s (.filter ns name nodes ch 0)).1 (.bind ns name uid node ch' 0 0)).2.res = .ok) :
+    ∀ h, h ∈ (step facts (step facts s (.filter ns name nodes ch 0)).1 (.bind ns name uid node ch' 0 0)).2.ips →
+      Routable s h.ip node := by
+  by_cases hr : pod.ranges = []
+  · by_cases hk : ipsOfKey s (keyOf pod) = []
+    · exact bound_ip_routable s ns name pod nodes ch ch' node uid hs hwf huid (fun _ => by rw [hk]; simp) hn hok
+    · obtain ⟨m, hm⟩ := minIP_isSome hk
+      obtain ⟨hips, hrt⟩ := bound_ip_is_lowest_held s ns name pod nodes ch ch' node uid hs hwf huid hr m hm hmin hmin' hn hok
+      intro h hh
+      rw [hips] at hh
+      simp at hh; subst hh
+      rw [toHInfo_ip]; exact hrt
+  · exact bound_ip_routable s ns name pod nodes ch ch' node uid hs hwf huid (fun e => absurd e hr) hn hok
+
+/-- `holder_offered_only_routable` WITHOUT `AtMostOneWithoutRanges`: with ranges, every address Bind will reuse is
+    routable from every approved node; without ranges, the address Bind will reuse - the lowest address of the key
+    (`bound_ip_is_lowest_held`) - is. -/
+theorem holder_offered_only_routable_sorted (s : State) (ns name : String) (pod : Pod) (nodes : List String)
+    (ch : Choice) (node : String) (hs : Scene s ns name pod) (hwf : WF s pod = true)
+    (hmin : choiceIsMin Generated.C06.byKeyNoRangesSorted s pod ch = true)
+    (hn : node ∈ (step facts s (.filter ns name nodes ch 0)).2.nodes) :
+    (pod.ranges ≠ [] → ∀ ip, ip ∈ held s pod → Routable s ip node) ∧
+    (pod.ranges = [] → ∀ m, minIP (ipsOfKey s (keyOf pod)) = some m → Routable s m node) := by
+  refine ⟨fun hr => holder_offered_only_routable s ns name pod nodes ch node hs hwf (fun e => absurd e hr) hn,
+    fun hr m hm => ?_⟩
+  rw [fact_by_key_without_ranges_sorted] at hmin
+  have hk : ipsOfKey s (keyOf pod) ≠ [] := fun e => by rw [e] at hm; cases hm
+  obtain ⟨ip, sn, hpf, hsub, hhas, _⟩ := filter_reuse (scene_withFaults hs 0 0) nodes ch hr hk node hn
+  have := choiceIsMin_first (s := withFaults s 0 0) hmin hr hk hpf
+  rw [show ipsOfKey (withFaults s 0 0) (keyOf pod) = ipsOfKey s (keyOf pod) from rfl, hm] at this
+  cases this
+  exact (routable_iff (WF_parts hwf).1 m node).mpr ⟨sn, hsub, hhas⟩
 
 /-- "Of the candidate nodes a fresh default-policy pod is offered exactly those that still have a free routable IP":
     for a default-policy pod that holds nothing, with or without requested ranges, Filter answers ok and approves
